@@ -438,6 +438,18 @@ func runC01(c *Ctx) {
 					if op == "Shl" || op == "Shr" {
 						c.Check(shiftAdaptOK(wir.TypesInfo, arm.Body, ctorOf[op]), "shift-count-adaptation", op, loc, "count wrapped for 32-bit value/64-bit count, zero-extended for 64-bit value/32-bit count",
 							"shift arm does not distinguish the operand-width combinations with i32.wrap_i64 / i64.extend_i32_u exactly in the mixed ones")
+						// Go defines shifts by counts >= the operand width (0, or the sign for signed >>); the wasm shift
+						// instructions use the count modulo the width. The arm must therefore bound the count itself:
+						// some comparison of the count (Lt/Le/Ge/Gt), a select, or a min/clamp helper has to be emitted.
+						bounded := false
+						for _, cc := range appendedCtors(wir.TypesInfo, arm.Body, "insts", true) {
+							switch cc.Name {
+							case "wat.NewInstLt", "wat.NewInstLe", "wat.NewInstGe", "wat.NewInstGt", "wat.NewInstSelect", "wat.NewInstIf":
+								bounded = true
+							}
+						}
+						c.Check(bounded, "shift-count-range", op, loc, "counts >= the operand width are handled explicitly",
+							"the "+op+" arm emits the wasm shift with the raw count: wasm uses the count modulo the operand width, Go shifts by the full count (x << 32 is 0 for a 32-bit x, Wa computes x << 0)")
 					}
 				}
 			}
